@@ -573,6 +573,32 @@ have [_ H3] := smx_rootinv_list (kron_subs_square ops) H2.
 by rewrite /a; have [-> -> _ _] := kron_eqs ops; exact: H3.
 Qed.
 
+(* ---- ... and root_inv_decomposition BELOW max_cholesky_size, in either source variant (arguments dropped / forwarded):
+        the base-class algorithm on this object's own sub-queries, valid for the method it is run with *)
+Theorem kron_root_inv_small_valid ops c m :
+  let a := algR (EKron ops) in
+  Z.leb (Z.of_nat (a_n a)) (mcs st) = true ->
+  0 < (eps_inv st : R) ->
+  (a_n a = 1%N -> exists2 x : T, a_dense a = [:: [:: x]] & 0 < (x : R)) ->
+  chol_tri_ok (a_n a) (a_dense a) (pub_cholesky arR a false) ->
+  symeig_ok (a_n a) (a_dense a) (a_symeig a) ->
+  (forall w Q, fst (a_symeig a) = Model.Ok (w, Q) -> eps_ok st (a_n a) w) ->
+  diag_ok (a_n a) (a_dense a) (a_diag a MNone) -> diag_full_ok (a_n a) (a_dense a) (a_diag a MNone) ->
+  (forall w Q k, fst (a_diag a MNone) = Model.Ok (w, Q, k) -> eps_ok st k w) ->
+  svd_ok (a_n a) (a_dense a) (a_svd a) ->
+  (forall U S V, fst (a_svd a) = Model.Ok (U, S, V) ->
+     (mx (a_n a) (a_n a) U)^T *m mx (a_n a) (a_n a) U = 1%:M /\ eps_ok st (a_n a) S) ->
+  rootinv_ok (a_n a) (a_dense a) (a_rootinvL (algR (EDense (a_n a) (a_dense a)))) ->
+  root_ok (a_n a) (a_dense a) (a_root a c MNone) ->
+  (forall Rt k, fst (a_root a c MNone) = Model.Ok (Rt, k) ->
+     k = a_n a /\ mx (a_n a) (a_n a) (o_pinv orc Rt) *m mx (a_n a) (a_n a) Rt = 1%:M) ->
+  rootinv_ok (a_n a) (a_dense a) (a_rootinv a c m).
+Proof.
+move=> a Hn e0 H1 Hc Hs Hse Hd Hdf Hde Hv Hve Hr Hrd Hp.
+rewrite (ProofsSelect.kron_root_inv_small_is_base T arR orc st ops c m Hn).
+by apply: gen_root_inv_ok => //; exact Hc.
+Qed.
+
 (* ---- KroneckerProductLinearOperator._symeig: ANY number of factors, every size (no threshold) *)
 Definition smx_eig_of (x : smx T) (wv : svec T) (q : smx T) : Prop :=
   let n := s_rows x in
